@@ -151,7 +151,7 @@ def run_file(job):
                     f.write(f">{nm_}\n{sq_}\n")
                 for (k, fl, cg, rev, sp) in specs:
                     f.write(f">{qname(k)}\n{read_seq(rev)}\n")
-            emit("realign", ["realign", gaf_r, gfa, fa, "-o", os.path.join(d, "o5")], rlines, os.path.join(d, "o5"))
+            emit("realign", ["realign", gaf_r, gfa, fa, "-o", os.path.join(d, "o5")] + (["-c", "2"] if len(rlines) > 2000 else []), rlines, os.path.join(d, "o5"))
         return cases
     finally:
         shutil.rmtree(d, ignore_errors=True)
